@@ -391,13 +391,13 @@ def p1_job(run, name, module, scope, profile="dev", workers=5, timeout=1500, non
     return res
 
 
-def pair_job(run, name, scope, workers=8, timeout=1500):
+def pair_job(run, name, scope, workers=8, timeout=1500, profile="dev"):
     """C10: pairs of histories over scope['pair_alphabet'], table over scope['alphabet'] (module MC_C10)."""
     wd = run.wd
     sp = os.path.join(wd, name + ".scope.json")
     tb = os.path.join(wd, name + ".table.ndjson")
     json.dump(scope, open(sp, "w"))
-    harness("table", sp, tb, "dev")
+    harness("table", sp, tb, profile)
     res = run_tlc("MC_C10", "MC.cfg", {"SCOPE": sp, "TABLE": tb}, wd, workers=workers, timeout=timeout)
     pa = len(scope["pair_alphabet"]) ** 2
     want = len(scope["cfgs"]) * sum(pa ** l for l in range(scope["maxlen"] + 1))
